@@ -112,19 +112,22 @@ def r4(ctx):
 SIG = ["chess_lookup::knight_moves", "chess_lookup::pawn_attacks_moves", "chess_lookup::bishop_rays", "chess_lookup::rook_rays", "chess_lookup::between"]
 
 
+private_closure = k2.private_closure
+
+
 def callee_set(P, key):
-    return {t["f"].get("fn") for _, t in P.calls(key) if t["f"].get("k") == "fnref"}
+    return {t["f"].get("fn") for k in private_closure(P, key) for _, t in P.calls(k) if t["f"].get("k") == "fnref"}
 
 
 def piece_consts(P, key):
     """Piece variants used as constants in `key` (indexing raw[Piece::X])."""
     out = set()
-    b = P.body(key)
-    for blk in b["blocks"]:
-        for s in blk["s"]:
-            r = s.get("r", {})
-            if r.get("k") == "agg" and r.get("adt") == "chess_bitboard::piece::Piece":
-                out.add(r["vn"])
+    for k in private_closure(P, key):
+        for blk in P.body(k)["blocks"]:
+            for s in blk["s"]:
+                r = s.get("r", {})
+                if r.get("k") == "agg" and r.get("adt") == "chess_bitboard::piece::Piece":
+                    out.add(r["vn"])
     return out
 
 
@@ -163,9 +166,10 @@ def r3(ctx):
         ctx.ob(f"make-move clears {fld}", ok, f"move_unchecked_into does not unconditionally reset `{fld}` before rebuilding it", site=body.get("def_span"))
     # in the slider loop both versions split on `between` empty (checker) vs exactly one blocker (pin)
     for key in (upd, mk):
-        body = P.body(key)
+      n_ok = 0
+      for k_ in sorted(private_closure(P, key)):
+        body = P.body(k_)
         c = cfg_of(body)
-        n_ok = 0
         for h, bl in c.loops().items():
             names = set()
             consts = set()
@@ -181,7 +185,7 @@ def r3(ctx):
                                 consts.add(int(o["c"]["int"]))
             if {"between", "none", "count"} <= names and 1 in consts:
                 n_ok += 1
-        ctx.ob(f"{key.rsplit('::',1)[1]} checker/pin split", n_ok == 1, f"{key}: the slider loop does not classify `between` as empty (check) / exactly one blocker (pin)", site=body.get("def_span"))
+      ctx.ob(f"{key.rsplit('::',1)[1]} checker/pin split", n_ok == 1, f"{key}: the slider loop does not classify `between` as empty (check) / exactly one blocker (pin)", site=P.body(key).get("def_span"))
 
 
 # ------------------------------------------------------------------ controls
@@ -248,7 +252,7 @@ def r5(ctx):
     P = ctx.P
     r = M.analyse(P)
     site = P.body(M.KEY).get("def_span")
-    mv = ("param", 1, "mv")
+    mv = ("param", 1, "a1")
     n = 0
     for p in r["paths"]:
         n += 1
